@@ -25,10 +25,10 @@ REFUTATION = re.compile(
     re.M)
 
 
-PTR_BYTES = int(os.environ.get("VERIF_PTR_BYTES", "8"))
+DEFAULT_PTR_BYTES = int(os.environ.get("VERIF_PTR_BYTES", "8"))
 
 
-def idx_lemma(repr_, bits, signed, proof):
+def idx_lemma(repr_, bits, signed, proof, PTR_BYTES):
     if not signed:
         return "" if proof else "true,"
     if bits >= PTR_BYTES * 8:
@@ -39,7 +39,7 @@ def idx_lemma(repr_, bits, signed, proof):
     return ("assert(%s) by (bit_vector);" % body) if proof else body + ","
 
 
-def prelude_text(repr_, shape, unsigned=None):
+def prelude_text(repr_, shape, unsigned=None, PTR_BYTES=8):
     t = open(os.path.join(VERIF, "contracts", "prelude.rs.tmpl")).read()
     bits, signed, comp = REPRS[repr_]
     lo, hi = rmin(repr_), rmax(repr_)
@@ -52,8 +52,8 @@ def prelude_text(repr_, shape, unsigned=None):
         "@R@": repr_, "@U@": unsigned or comp, "@RMIN@": "(%d)" % lo, "@RMAX@": str(hi), "@MOD@": "(%dint + 1)" % (hi - lo),
         "@SHAPE_AXIOM@": "runs().len() == 1" if shape == "gapless" else "runs().len() >= 2",
         "@SIGNED@": "true" if signed else "false",
-        "@IDX_ENSURES@": idx_lemma(repr_, bits, signed, False),
-        "@IDX_PROOF@": idx_lemma(repr_, bits, signed, True),
+        "@IDX_ENSURES@": idx_lemma(repr_, bits, signed, False, PTR_BYTES),
+        "@IDX_PROOF@": idx_lemma(repr_, bits, signed, True, PTR_BYTES),
         "@CAST_ENSURES@": ("forall|w: R| (#[trigger] (#[verifier::truncate] (w as U))) as int == if w >= 0 { w as int } else { w as int + %d + 1 }," % (2 * hi + 1)) if signed else "true,",
         "@CAST_PROOF@": ("assert(forall|w: R| (#[trigger] (#[verifier::truncate] (w as U))) as int == if w >= 0 { w as int } else { w as int + %d + 1 }) by (bit_vector);" % (2 * hi + 1)) if signed else "",
     }
@@ -92,7 +92,7 @@ def build_overlay(entries, specs):
     return ov, chosen
 
 
-def assemble(spec, mod, entries, chosen):
+def assemble(spec, mod, entries, chosen, ptr_bytes=8):
     """returns (text, fnmap) — fnmap: list of (first_line, last_line, key, properties)"""
     tags = module_tags(spec)
     problems = []
@@ -105,7 +105,7 @@ def assemble(spec, mod, entries, chosen):
         for ln in text.rstrip("\n").split("\n"):
             lines.append(ln)
 
-    emit(prelude_text(spec.repr, spec.shape()))
+    emit(prelude_text(spec.repr, spec.shape(), PTR_BYTES=ptr_bytes))
     emit(shims_text(spec.repr))
     emit("verus! {")
     # struct definitions, as generated, with std iterator types mapped to their shim types
@@ -284,8 +284,9 @@ def scan_assumptions(text):
     return out
 
 
-def run_layer_t(scratch, reprs=None, jobs=8, keep_dir=None, target=None):
+def run_layer_t(scratch, reprs=None, jobs=8, keep_dir=None, target=None, ptr_bytes=None):
     """returns dict: modules -> {functions -> verdict}, plus bookkeeping"""
+    ptr_bytes = ptr_bytes or DEFAULT_PTR_BYTES
     entries = overlay.parse()
     specs = corpus.t_cells(reprs)
     by_mod = {s.mod: s for s in specs}
@@ -312,7 +313,7 @@ def run_layer_t(scratch, reprs=None, jobs=8, keep_dir=None, target=None):
             if (s.mod, k) in chosen:
                 if k not in fb or fa[k]["canon"] != fb[k]["canon"]:
                     nonuniform.append(k)
-        text, fnmap, problems = assemble(s, ma, entries, chosen)
+        text, fnmap, problems = assemble(s, ma, entries, chosen, ptr_bytes)
         for k in nonuniform:
             problems.append("%s: body is not uniform across enums (instance data left after R1-R9)" % k)
         path = os.path.join(vdir, s.mod + ".rs")
